@@ -670,3 +670,129 @@ def c06_kv(m, run):
                                 raise Violation('KRM1', 'new knot vector is %s, expected %s' % ([getattr(c, 'rank', c) for c in out], want))
                         t.add((p, tuple(ranks), rk, r), run1(m, 'helpers.knot_removal_kv', [[Ord(x) for x in ranks], span, r], {}, post))
     finish(t, 'geomdl/helpers.py in helpers.knot_removal_kv')
+
+
+# ====================================================================================== C01 / C17 / C18: what the evaluator is asked for
+def dom2(m, run):
+    """DOM2: with no start/stop supplied, BSpline.{Curve,Surface,Volume}.evaluate asks its evaluator for the whole domain: per direction d
+    start = knotvector_d[degree_d] and stop = knotvector_d[-(degree_d + 1)], passed as `start` / `stop` (scalars for a curve, tuples in
+    (u, v, w) order otherwise).  Decided by interpreting the method on an abstract object whose knots are labelled tokens - whatever the
+    spelling (named locals, per-direction loop, forwarding)."""
+    cases = (('Curve', 1, (2,), (5,)), ('Surface', 2, (2, 1), (4, 5)), ('Volume', 3, (1, 2, 3), (3, 5, 4)))
+    for cname, pdim, degs, sizes in cases:
+        key = 'BSpline.%s.evaluate' % cname
+        kvs = [[Tok('DEF', dep=frozenset([(d, i)])) for i in range(n + p + 1)] for d, (p, n) in enumerate(zip(degs, sizes))]
+        got = {}
+
+        def ev(sk, node, *a, **k):
+            got.update(k)
+            got['__args__'] = a
+            return []
+        total = 1
+        for s_ in sizes:
+            total *= s_
+        attrs = dict(_degree=list(degs), _knot_vector=kvs, _control_points=pts(total, 3), _control_points_size=list(sizes), _kv_normalize=False,
+                     _evaluator=Bag('evaluator', evaluate=Py(ev, 'evaluate')), data={}, _eval_points=[], _cache={}, _bounding_box=[], _control_points2D=[],
+                     _delta=[0.1] * pdim, _array_type=None, _rational=False, _pdim=pdim, _dimension=3, _precision=18, _tsl_component=Bag('tessellator', reset=Py(lambda sk, node, *a, **k: None, 'reset')), _trims=[])
+        obj = Bag(('BSpline', cname), **attrs)
+        sk = SK(m, dict(STD_ABSTRACTED))
+        res = None
+        try:
+            sk.call(m.func(key), [obj], {})
+        except Violation as v:
+            res = '%s %s' % (v.msg, v.where())
+        except Unsupported as ex:
+            raise AnalysisError('%s: interpreter met an unsupported construct: %s' % (key, ex))
+        if res is None:
+            def lab(x):
+                return next(iter(x.dep)) if isinstance(x, Tok) and x.dep and len(x.dep) == 1 else x
+            st, sp = got.get('start'), got.get('stop')
+            if st is None or sp is None:
+                res = 'the evaluator is called without start/stop (%s): its own defaults, 0.0 and 1.0, replace the domain ends' % sorted(k for k in got if not k.startswith('__'))
+            else:
+                st = [st] if pdim == 1 and not isinstance(st, (list, tuple)) else list(st)
+                sp = [sp] if pdim == 1 and not isinstance(sp, (list, tuple)) else list(sp)
+                want_s = [(d, degs[d]) for d in range(pdim)]
+                want_e = [(d, sizes[d]) for d in range(pdim)]          # index -(p + 1) of n + p + 1 knots is n
+                gs, ge = [lab(x) for x in st], [lab(x) for x in sp]
+                if gs != want_s or ge != want_e:
+                    def show(v):
+                        return ['knotvector_%s[%s]' % ('uvw'[x[0]], x[1]) if isinstance(x, tuple) else repr(x) for x in v]
+                    res = 'default range is start=%s stop=%s, the domain is start=%s stop=%s' % (show(gs), show(ge), show(want_s), show(want_e))
+        run.ob('DOM2.evaluator-receives-the-domain-ends', key, res is None, 'start = knot[degree], stop = knot[-(degree + 1)] of every direction' if res is None else res,
+               'geomdl/BSpline.py in %s' % key)
+
+
+def abstract_shape(cname, pdim, degs, sizes, normalize, record):
+    """an abstract BSpline.<cname> object: labelled knots, defined points, stubs for the evaluator and the operation slots that record their calls"""
+    kvs = [[Tok('DEF', dep=frozenset([(d, i)])) for i in range(n + p + 1)] for d, (p, n) in enumerate(zip(degs, sizes))]
+    total = 1
+    for s_ in sizes:
+        total *= s_
+
+    def stub(name, ret=None):
+        def f(sk, node, *a, **k):
+            record.append((name, a, k))
+            return ret() if callable(ret) else ret
+        return Py(f, name)
+    ev = Bag('evaluator', evaluate=stub('evaluator.evaluate', lambda: [[DEF(), DEF(), DEF()]]), derivatives=stub('evaluator.derivatives', lambda: [[DEF(), DEF(), DEF()]]))
+    attrs = dict(_degree=list(degs), _knot_vector=kvs, _control_points=pts(total, 3), _control_points_size=list(sizes), _kv_normalize=normalize,
+                 _evaluator=ev, data={}, _eval_points=[], _cache={}, _bounding_box=[], _control_points2D=[], _delta=[0.1] * pdim, _array_type=None,
+                 _rational=False, _pdim=pdim, _dimension=3, _precision=18, _trims=[],
+                 _tsl_component=Bag('tessellator', reset=stub('tessellator.reset')),
+                 _insert_knot_func=stub('insert_knot_func'), _remove_knot_func=stub('remove_knot_func'), _span_func=stub('span_func', 0))
+    return Bag(('BSpline', cname), **attrs)
+
+
+def rg2(m, run, methods):
+    """RG2: a shape created with normalize_kv=False is never tested against the unit interval: interpreting the named methods on an
+    abstract un-normalised object, utilities.check_params is not reached (whatever helper the test has been moved into) and the request
+    reaches the evaluator / operation slot.  Decided per method of BSpline.{Curve,Surface,Volume}."""
+    cases = (('Curve', 1, (2,), (5,)), ('Surface', 2, (2, 1), (4, 5)), ('Volume', 3, (1, 2, 3), (3, 5, 4)))
+    n = 0
+    for cname, pdim, degs, sizes in cases:
+        for meth in methods:
+            fi = m.lookup(('BSpline', cname), meth, 'methods')
+            if fi is None:
+                continue
+            ps = [a.arg for a in fi.node.args.args][1:]
+            record = []
+            obj = abstract_shape(cname, pdim, degs, sizes, False, record)
+            prm = DEF() if pdim == 1 else tuple(DEF() for _ in range(pdim))
+            args = []
+            for p_ in ps:
+                if p_ in ('u', 'v', 'w'):
+                    args.append(DEF())
+                elif p_ in ('param', 'parpos', 'uv', 'uvw'):
+                    args.append(prm)
+                elif p_ in ('param_list',):
+                    args.append([prm, prm])
+                elif p_ in ('order',):
+                    args.append(1)
+                else:
+                    args.append(DEF())
+            ab = dict(STD_ABSTRACTED)
+            called = []
+            ab[('utilities', 'check_params')] = Py(lambda sk, node, *a, _c=called: (_c.append(node) or False), 'check_params')
+            sk = SK(m, ab)
+            note = None
+            try:
+                sk.call(fi, [obj] + args, {})
+            except Violation as v:
+                if v.rule != 'RAISE':
+                    note = '%s %s' % (v.msg, v.where())
+            except Unsupported as ex:
+                note = 'unsupported construct: %s' % ex
+            key = '%s.%s' % (fi.key.rsplit('.', 1)[0] if False else 'BSpline.' + cname, meth)
+            if called:
+                n += 1
+                run.ob('RG2.no-unit-range-test-for-un-normalised-shapes', key, False,
+                       'on an object created with normalize_kv=False the method reaches utilities.check_params (line %d): valid parameters outside [0, 1] are rejected '
+                       'or silently dropped' % called[0].lineno, 'geomdl/%s.py:%d in %s' % (fi.mod, called[0].lineno, fi.key))
+            elif note is not None and not record:
+                run.note('RG2.no-unit-range-test-for-un-normalised-shapes', key, 'not decided by interpretation (%s)' % note)
+            else:
+                n += 1
+                run.ob('RG2.no-unit-range-test-for-un-normalised-shapes', key, True, 'check_params is not reached; the request reaches %s' % (record[0][0] if record else 'the end of the method'),
+                       'geomdl/%s.py in %s' % (fi.mod, fi.key))
+    return n
